@@ -65,7 +65,7 @@ fn vp_native_multipart_roundtrip_body() {
         let boundary = ct.strip_prefix("multipart/form-data; boundary=").expect("content type announces the boundary").to_string();
         let mut body = Vec::new();
         mp.write(&mut body).unwrap();
-        cases += 1;
+        cases += 1; crate::verif_native_watchdog::progress();
         let got = decode(&body, &boundary).unwrap_or_else(|e| panic!("body does not decode ({}): ntext {} nfiles {} size {} kind {}", e, ntext, nfiles, size, kind));
         let mut want: Vec<Part> = texts.iter().map(|(k, v)| Part { name: k.clone(), filename: None, ctype: None, data: v.clone().into_bytes() }).collect();
         want.extend(files.iter().map(|(k, d, fname, mime)| Part { name: k.clone(), filename: fname.clone(), ctype: Some(mime.unwrap_or("application/octet-stream").to_string()), data: d.clone() }));
@@ -82,7 +82,7 @@ fn vp_native_multipart_roundtrip_body() {
                 loop { let n = std::io::Read::read(&mut mp2.data, &mut buf).unwrap(); if n == 0 { break; } out.extend_from_slice(&buf[..n]); }
                 let norm = |x: &[u8], bd: &str| -> Vec<u8> { String::from_utf8_lossy(x).replace(bd, "B").into_bytes() };
                 assert!(norm(&out, &b2).len() == norm(&body, &boundary).len() && decode(&out, &b2).map(|mut p| { p.sort_by_key(key); p }) == Ok(w.clone()), "body read with {}-byte buffers differs", bs);
-                cases += 1;
+                cases += 1; crate::verif_native_watchdog::progress();
             }
         }
     } } } }
@@ -100,7 +100,7 @@ fn vp_native_multipart_roundtrip_body() {
                 (body, boundary)
             };
             let got = decode(&body, &boundary).unwrap_or_else(|e| panic!("a form carrying an earlier form as data does not decode ({}), round {}", e, round));
-            cases += 1;
+            cases += 1; crate::verif_native_watchdog::progress();
             assert_eq!(got.len(), 1 + prev.len(), "a form carrying an earlier form's body as file data decodes to {} parts instead of {} (round {}): its delimiter occurs inside its own data", got.len(), 1 + prev.len(), round);
             for (i, d) in prev.iter().enumerate() { assert!(got.iter().any(|p| p.name == format!("capture{}", i) && p.data == *d), "file capture{} came back changed (round {})", i, round); }
             let look_alike = format!("\r\n--{}\r\nContent-Disposition: form-data; name=\"x\"\r\n\r\ninjected\r\n--{}--", boundary, boundary).into_bytes();
@@ -131,7 +131,7 @@ fn vp_native_multipart_roundtrip_body() {
         let mut mp = b.build().expect("building a form must not fail");
         let ct = mp.content_type().unwrap().unwrap();
         let boundary = ct.strip_prefix("multipart/form-data; boundary=").expect("content type announces the boundary").to_string();
-        let mut body = Vec::new(); mp.write(&mut body).unwrap(); cases += 1;
+        let mut body = Vec::new(); mp.write(&mut body).unwrap(); cases += 1; crate::verif_native_watchdog::progress();
         let mut got = decode(&body, &boundary).unwrap_or_else(|e| panic!("body does not decode ({}): {} text fields, {} files, variant {}", e, ntext, nfiles, variant));
         let key = |p: &Part| (p.name.clone(), p.data.len());
         got.sort_by_key(key); want.sort_by_key(key);
